@@ -658,6 +658,7 @@ FIXED_SOURCES = [
     "local n = 0xFF + 0b11 + 1_000 + 1e3 + .5 + 5.\n",
     "local a = b;;local c = d; ; return c;\n",
     "local x = a[b[c]] .. 5 .. y\nreturn x..5, a[b[c]]\n",
+    "local s1 = 'a'\nreturn s1..s1, s1 ..s1\n",
     "if a then elseif b then else end while a do break end repeat until a for i = 1, 2 do end for k in p do end\n",
     "local function f(...) return ... end\nfunction t.a.b:c(x, ...) end\n",
     "x += 1 y ..= 'a' z //= 2\n",
